@@ -84,6 +84,21 @@ def apply_op(td, op):
         return td.flatten_keys(".")
     if name == "clone":
         return td.clone()
+    if name == "setconst":
+        # a value that does not depend on the vmapped input (un-batched inside vmap), written into the (batched) tensordict
+        n = 2
+        for d in td.batch_size:
+            n *= d
+        const = torch.arange(100000, 100000 + n).reshape(*td.batch_size, 2)
+        t = td if getattr(td, "hook_in", None) is not None else td.clone(False)
+        return t.set("c", const)
+    if name == "deepen":
+        # the nested node `n` is re-declared with one more batch dimension than its parent
+        from tensordict import TensorDict
+        t = td.clone(False)
+        t.set("n", TensorDict({"x": td.get(("n", "x"))}, batch_size=[*td.batch_size, 1],
+                              names=[*td.names, None] if td._has_names() else None))
+        return t
     if name == "vmap":
         _, i, o, sub = op
         return torch.vmap(lambda t: run_real(sub, t), in_dims=i, out_dims=o)(td)
@@ -112,8 +127,10 @@ def track(op, batch, keys):
     name = op[0]
     b = list(batch)
     ks = list(keys)
-    if name in ("mul2", "add1", "neg", "flatten_keys", "clone"):
+    if name in ("mul2", "add1", "neg", "flatten_keys", "clone", "deepen"):
         return b, ks
+    if name == "setconst":
+        return b, [k for k in ks if k != "c"] + ["c"]
     if name == "unsqueeze":
         return (b[:op[1]] + [1] + b[op[1]:], ks) if 0 <= op[1] <= len(b) else None
     if name == "permute_rev":
@@ -149,7 +166,7 @@ def gen_prog(rng, batch, keys, depth, maxlen=4, allow_vmap=True):
     b, ks = list(batch), list(keys)
     for _ in range(rng.randint(0, maxlen)):
         choices = ["mul2", "add1", "neg", "unsqueeze", "permute_rev", "transpose01", "idx0", "expand2", "stack_self", "sum0", "cat_self",
-                   "select", "exclude", "setmul3", "rename", "flatten_keys", "clone"]
+                   "select", "exclude", "setmul3", "rename", "flatten_keys", "clone", "setconst"]
         if allow_vmap and depth > 0 and len(b) >= 1:
             choices += ["vmap", "vmap"]
         name = rng.choice(choices)
@@ -186,6 +203,8 @@ def gen_prog(rng, batch, keys, depth, maxlen=4, allow_vmap=True):
             continue
         prog.append(op)
         b, ks = t
+    if allow_vmap and "n.x" in ks and not any(o[0] in ("flatten_keys", "vmap") for o in prog) and rng.random() < 0.35:
+        prog.append(("deepen",))      # top level only: the output holds a nested tensordict with MORE batch dims than its parent
     return prog, (b, ks)
 
 
@@ -199,7 +218,12 @@ def canon_td(td):
             name = k if isinstance(k, str) else ".".join(k)
             leaves.append([name, list(v.shape), v.reshape(-1).tolist()])
         names = [("none" if n is None else n) for n in td.names] if td._has_names() else ["none"] * td.batch_dims
-        return ["ok", ["batch"] + list(td.batch_size), ["names"] + names, ["leaves"] + sorted(leaves, key=lambda l: l[0])]
+        nodes = []
+        for k in td.keys(True, False):
+            v = td.get(k)
+            if isinstance(v, TensorDictBase) and v.batch_dims > td.batch_dims:
+                nodes.append([k if isinstance(k, str) else ".".join(k), list(v.batch_size)])
+        return ["ok", ["batch"] + list(td.batch_size), ["names"] + names, ["leaves"] + sorted(leaves, key=lambda l: l[0]), ["nodes"] + sorted(nodes)]
     if isinstance(td, torch.Tensor):
         return ["t", list(td.shape), td.reshape(-1).tolist()]
     if isinstance(td, (tuple, list)):
@@ -213,4 +237,5 @@ def canon_model(ans):
         return ["err"]
     batch, names, leaves = ans[1], ans[2], ans[3]
     ls = [[str(l[0]), l[1] if isinstance(l[1], list) else [l[1]], l[2] if isinstance(l[2], list) else [l[2]]] for l in leaves[1:]]
-    return ["ok", ["batch"] + batch[1:], ["names"] + [str(n) for n in names[1:]], ["leaves"] + sorted(ls, key=lambda l: l[0])]
+    nodes = [[str(x[0]), x[1]] for x in ans[4][1:]] if len(ans) > 4 else []
+    return ["ok", ["batch"] + batch[1:], ["names"] + [str(n) for n in names[1:]], ["leaves"] + sorted(ls, key=lambda l: l[0]), ["nodes"] + sorted(nodes)]
